@@ -209,3 +209,32 @@ Proof.
     apply lbeq_eq in He. exact (Hno f d q Hf Ef eq_refl He). }
   now rewrite H2.
 Qed.
+
+(* what "below a declared directory" means on the spelled paths: d, a separator, anything *)
+Lemma starts_with_app_nonnil (d r pre : bytes) : d <> [] -> length pre = 1%nat -> starts_with (d ++ r) pre = starts_with d pre.
+Proof.
+  intros Hd Hl. destruct pre as [|x [|? ?]]; try discriminate. destruct d as [|y d]; [congruence|]. cbn. destruct (N.eqb y x); reflexivity.
+Qed.
+
+Lemma split_on_head_app sep d r : d <> [] ->
+  match split_on sep (d ++ sep :: r) with c :: _ => Some c | [] => None end =
+  match split_on sep d with c :: _ => Some c | [] => None end.
+Proof.
+  intros _. rewrite split_on_app_sep. destruct (split_on sep d) as [|c cs] eqn:E; [now apply split_on_nonnil in E|]. reflexivity.
+Qed.
+
+Lemma pseq_below d rest : d <> [] -> pseq (d ++ slash :: rest) = pseq d ++ components rest.
+Proof.
+  intros Hd. unfold pseq. rewrite (starts_with_app_nonnil d (slash :: rest) [slash] Hd eq_refl), components_app_sep.
+  pose proof (split_on_head_app slash d rest Hd) as Hh.
+  destruct (split_on slash (d ++ slash :: rest)) as [|c1 l1]; destruct (split_on slash d) as [|c2 l2]; try discriminate.
+  - now rewrite !app_assoc.
+  - injection Hh as ->. now rewrite !app_assoc.
+Qed.
+
+Lemma below_declared_dir_still_relevant declared files exts d rest :
+  In d declared -> d <> [] -> watch_filter2 declared files exts (d ++ slash :: rest) = watch_filter exts (d ++ slash :: rest).
+Proof.
+  intros Hin Hd. apply (declared_path_still_relevant declared files exts d); [exact Hin|].
+  apply lprefix_spec. exists (components rest). now apply pseq_below.
+Qed.
